@@ -1,6 +1,7 @@
 import Gms.Driver.Proto
 import Gms.Model.ProcLang
-open Gms.Proto Gms.ProcLang
+import Gms.Model.ProcHandler
+open Gms.Proto Gms.ProcLang Gms.ProcH
 
 /-! Line-protocol driver for C24.
 
@@ -17,6 +18,10 @@ Case payload:
   <e>    ::= (lit n) | null | (var x) | (add a b) | (sub a b) | (mul a b) | (eq a b) | (lt a b)
            | (le a b) | (and a b) | (or a b) | (not a)
 Observation: ops=<op list> ;; <per call: class|u…|log…>
+
+Handler cases (model `Gms/Model/ProcHandler.lean`): same payload with head `hproc`; the body is label-free
+(`(block - …)`, `(while - c …)`, no repeat/loop/leave/iterate, DECLAREs always with DEFAULT) and may contain
+  (handler exit|continue sqlexception|notfound x <e>)   -- DECLARE … HANDLER FOR … SET vx = e
 -/
 
 def optName? : Sexp → Option (Option Name)
@@ -183,8 +188,111 @@ def specCall (sem : Sem) (p : Proc) (uks : List Name) (args : List Arg) (s : Opt
 the engine there (see `staleIntoClosedBlock`); only the compile level is compared. -/
 def norunObs : String := "unmodelled:stale-jump-into-closed-block"
 
+/-! ### Handler cases -/
+
+def seqOfH : List HStmt → HStmt
+  | [] => .skip
+  | [s] => s
+  | s :: r => .seq s (seqOfH r)
+
+mutual
+partial def parseStmtsH (xs : List Sexp) : Option HStmt := do
+  let ss ← xs.mapM parseStmtH
+  pure (seqOfH ss)
+
+partial def parseArmsH (scrut : Option Expr) : List Sexp → Option HStmt
+  | [.list (.atom "else" :: body)] => parseStmtsH body
+  | [.list [.atom "noelse"]] => some .caseNotFound
+  | [] => some .skip
+  | .list (.atom "arm" :: c :: body) :: rest => do
+    let c ← parseExpr c
+    let b ← parseStmtsH body
+    let e ← parseArmsH scrut rest
+    let cond := match scrut with | some s => Expr.eq s c | none => c
+    pure (.ite cond b e)
+  | _ => none
+
+partial def parseStmtH : Sexp → Option HStmt
+  | .list (.atom "block" :: .atom "-" :: body) => do let b ← parseStmtsH body; pure (.block b)
+  | .list [.atom "decl", x, d] => do let x ← x.nat?; let n ← d.int?; pure (.declare x n)
+  | .list [.atom "handler", .atom act, .atom cond, x, e] => do
+    let ex ← (match act with | "exit" => some true | "continue" => some false | _ => none)
+    let nf ← (match cond with | "notfound" => some true | "sqlexception" => some false | _ => none)
+    let x ← x.nat?
+    let e ← parseExpr e
+    pure (.handler ex nf x e)
+  | .list [.atom "set", x, e] => do let x ← x.nat?; let e ← parseExpr e; pure (.set x e)
+  | .list [.atom "emit", e] => do let e ← parseExpr e; pure (.emit e)
+  | .list (.atom "if" :: arms) => parseArmsH none arms
+  | .list (.atom "case" :: scrut :: arms) =>
+    match scrut with
+    | .atom "-" => parseArmsH none arms
+    | s => do let s ← parseExpr s; parseArmsH (some s) arms
+  | .list (.atom "while" :: .atom "-" :: c :: body) => do
+    let c ← parseExpr c; let b ← parseStmtsH body; pure (.while c b)
+  | .list [.atom "signal"] => some .signal
+  | _ => none
+end
+
+def showOpH : HOp → String
+  | .scopeBegin i => s!"ScopeBegin/{i}/-"
+  | .scopeEnd i => s!"ScopeEnd/{i}/-"
+  | .declare _ _ => "Declare/0/-"
+  | .handler _ _ _ _ => "Declare/0/-"
+  | .set x _ => s!"Set/0/v{x}"
+  | .exec _ => "Execute/0/-"
+  | .ifz _ i => s!"If/{i}/-"
+  | .goto i => s!"Goto/{i}/-"
+  | .exception => "Exception/0/-"
+  | .signal => "Signal/0/-"
+
+structure HAcc where
+  impl : Session
+  spec : Option Session
+  implObs : List String
+  specObs : List String
+  dirty : Bool
+
+def handleH (ps body uvs calls : List Sexp) : String :=
+  match ps.mapM parseParam, parseStmtsH body, uvs.mapM parseUvar,
+      calls.mapM (fun c => c.items.mapM parseArg) with
+  | some params, some body, some uvars, some calls =>
+    let proc : HProc := { params := params, body := body }
+    let ops := compileProgramH body
+    let opsStr := "ops=" ++ " ".intercalate (ops.map showOpH)
+    let uks := uvars.map (·.1)
+    let s0 : Session := { uvars := uvars, sess := [], log := [] }
+    let acc := calls.foldl (fun (a : HAcc) args =>
+      let dirty := a.dirty || outParamDirty a.impl params args
+      let (o, si) := callImplH implFuel proc args a.impl
+      let io := showCall uks o si
+      let (ss, so) : Option Session × String := match a.spec with
+        | none => (none, "?")
+        | some s => match callSpecH specFuel proc args s with
+          | none => (none, "?")
+          | some (o, s') => (some { s' with log := [] }, showCall uks o s')
+      { impl := { si with log := [] }, spec := ss, implObs := a.implObs ++ [io], specObs := a.specObs ++ [so],
+        dirty := dirty }) { impl := s0, spec := some s0, implObs := [], specObs := [], dirty := false }
+    let implStr := opsStr ++ " ;; " ++ " ; ".intercalate acc.implObs
+    if acc.specObs.contains "?" then answer implStr "?" "-"
+    else
+      let specStr := opsStr ++ " ;; " ++ " ; ".intercalate acc.specObs
+      if implStr == specStr then answer implStr "=" "-"
+      else
+        let region :=
+          if hasElseBlockH body then "else_block_scope_leak"
+          else if nestedHandlers false body then "nested_handler_outermost_wins"
+          else if exitHandlerNested true body then "exit_handler_scope_leak"
+          else if handlerDynScope body then "handler_body_dynamic_scope"
+          else if acc.dirty then "out_param_not_reset"
+          else "-"
+        answer implStr specStr region
+  | _, _, _, _ => answer "bad-case"
+
 def handle (p : List Sexp) : String :=
   match p with
+  | [.list [.atom "hproc", .list (.atom "params" :: ps), .list (.atom "body" :: body),
+      .list (.atom "uvars" :: uvs), .list (.atom "calls" :: calls)]] => handleH ps body uvs calls
   | [.list (.atom "proc" :: .list (.atom "params" :: ps) :: .list (.atom "body" :: body) ::
       .list (.atom "uvars" :: uvs) :: .list (.atom "calls" :: calls) :: flags)] =>
     match ps.mapM parseParam, parseStmts body, uvs.mapM parseUvar,
